@@ -322,6 +322,9 @@ def _descriptor_model(rng):
     for j in range(rng.randrange(1, 6)):
         kind = rng.choice(["SPARSE", "FLAT", "VMFS", "VMFSSPARSE", "SESPARSE", "ZERO"])
         name = (_text(rng, rng.randrange(1, 20), "abc 019-_é日😀#()").strip() or "d") + f"-{j}.vmdk"
+        if rng.random() < 0.2:
+            # an inner quote followed by a blank and a few words (looks like the end of the quoted name, is not)
+            name = rng.choice(['copy of "web 01" (old)', 'vm "restored', 'a" 7 b', 'q" 0', 'x" 1 2 y']) + f"-{j}.vmdk"
         sectors = rng.choice([1, rng.getrandbits(20), rng.getrandbits(40)])
         start = rng.choice([None, 0, rng.getrandbits(20)]) if kind in ("FLAT", "VMFS") else None
         exts.append({"access": rng.choice(["RW", "RDONLY", "NOACCESS"]), "sectors": sectors, "type": kind, "filename": None if kind == "ZERO" else name, "start": start})
@@ -523,6 +526,7 @@ def _hdd_opened(rng, ctx, c, cnt, sample, res):
 
     fresh = _hdd_meta(_open(HDD, op.hdd.path))
     c.eq("descriptor metadata after the first open()", _hdd_meta(op.hdd), fresh)
+    c.eq("virtual size of the opened disk (highest storage end, whatever the order of the Storage elements)", op.stream.size, op.model.size)
     for rep in range(3):
         st = call(op.hdd.open, rng.choice(guids))
         if not st.ok:
